@@ -176,9 +176,12 @@ func (m *vRmgr) RollbackRealloc(_ context.Context, node string, delta resourcety
 	return nil
 }
 
-func (m *vRmgr) SetNodeResourceUsage(_ context.Context, node string, _ resourcetypes.Resources, _ resourcetypes.Resources, ws []resourcetypes.Resources, delta bool, incr bool) (resourcetypes.Resources, resourcetypes.Resources, error) {
+func (m *vRmgr) SetNodeResourceUsage(ctx context.Context, node string, _ resourcetypes.Resources, _ resourcetypes.Resources, ws []resourcetypes.Resources, delta bool, incr bool) (resourcetypes.Resources, resourcetypes.Resources, error) {
 	if vEnter(m.w, "rmgr.SetNodeResourceUsage") {
 		return nil, nil, vErrInjected
+	}
+	if err := ctx.Err(); err != nil {
+		return nil, nil, err // the real manager talks to the store: a dead context fails the call
 	}
 	vMu.Lock()
 	before := m.w.usage[node]
@@ -270,6 +273,11 @@ func (e *vEngine) VirtualizationUpdateResource(_ context.Context, id string, par
 
 func (e *vEngine) VirtualizationRemove(_ context.Context, id string, _, _ bool) error {
 	defer vGuard()()
+	if e.w.cancelCaller != nil && vBool("caller_gives_up_during_removal_of_"+id) {
+		e.w.cancelCaller() // the client went away while the engine was removing the container
+		e.w.cancelCaller = nil
+		vCover("caller-gave-up", true)
+	}
 	if e.w.fault("engine.VirtualizationRemove") {
 		return vErrInjected
 	}
